@@ -5,7 +5,13 @@ Tie: `PersLandscapeApprox(...).values`, `vectorize`, `death_vector`, `Persistenc
 of the real code vs the same model executed at Rat (driver ops `pl.approx`, `pl.transform`, `pl.vectorize`, `pl.death`).
 [T]: the half-step bound itself, evaluated on the real code against the exact landscape at the grid nodes
 (an independent Fraction oracle, cross-checked against the driver's `pl.lambda.grid`), transformer = approx values
-(code against code), vectorize = evalPL of the code's own critical pairs, death vector sorted + permutation.
+(code against code, diagrams with infinite bars included), vectorize = evalPL of the code's own critical pairs AND
+vectorize(PersLandscapeExact(diagram)) against the true landscape at the grid nodes (failures with the C03 repeated-bar
+shortcut fired are the known finding `site=persim/landscapes/exact.py:repeated-bar-shortcut`), death vector sorted + permutation.
+
+A grid on which no bar is visible gives ONE ZERO ROW (np.zeros((1, num_steps)), /repo fix 357d745): the model returns the
+same row and arrays are compared as they are; a non-numeric `values` (the former string placeholder ['empty']) on a covering
+grid is a violation (it is not a sampled function).
 
 Tolerances (why):
 * exact stream — start, step, bar endpoints are small dyadic numbers, `num_steps-1` a power of two or the step given
@@ -24,6 +30,7 @@ from fractions import Fraction as F
 import numpy as np
 from .. import common
 from ..common import enc, ask, call
+from .. import corethm
 
 LEVEL = "proof"
 RULE = ("cases from one PRNG: 1-3 homology degrees of 0-10 bars (thorough: 0-40), coordinates from lattice/half/dyadic/"
@@ -31,8 +38,10 @@ RULE = ("cases from one PRNG: 1-3 homology degrees of 0-10 bars (thorough: 0-40)
         "exactly covering, over-covering, on-grid endpoints, partial (not covering), degenerate start=stop and start>stop; "
         "num_steps 2..40 (thorough ..300) plus 0 and 1; an exact stream on dyadic grids with forced midpoint ties; "
         "vectorize on computed and synthetic critical pairs; transformer with/without flatten, fit_transform and transform; "
+        "(both with infinite bars in the diagrams); vectorize of PersLandscapeExact(diagram) against the true landscape "
+        "(0-8 bars with duplicates, default/covering/over-covering/partial grids); "
         "death vectors with ties and inf; a malformed stream (empty diagram, missing degree, no diagrams, num_steps=0). "
-        "non-trivial = selected degree has >=2 finite bars and the values array is not the placeholder "
+        "non-trivial = selected degree has >=2 finite bars and the values array is numeric "
         "(vectorize: >=1 depth with >=3 points; death: >=2 deaths); distinct by digest of the whole case")
 ASSUMPTIONS = [
     "np.linspace(start, stop, n, retstep=True) returns step=(stop-start)/(n-1) and nodes i*step+start up to rounding (re-checked per case)",
@@ -41,7 +50,16 @@ ASSUMPTIONS = [
     "sklearn TransformerMixin.fit_transform(X) = fit(X).transform(X) (compared on every transformer case)",
     "coordinates are finite or +inf; -inf/NaN inputs are outside the model",
 ]
-TRUSTED = ["harness/props/c08.py Fraction oracle for the true landscape (cross-checked against the driver's pl.lambda.grid on every run)"]
+TRUSTED = ["harness/props/c08.py Fraction oracle for the true landscape (cross-checked against the driver's pl.lambda.grid on every run)",
+           "the guarded trace persim.landscapes.exact._VERIF_TRACE is used only to attribute a wrong vectorize result to the known repeated-bar shortcut",
+           "the compiled driver executable is trusted as compiled by Lean's compiler, not checked by the kernel"]
+# theorems that carry a clause of the property (helpers, concrete instances and definitional restatements excluded)
+CORE_THEOREMS = ["kth_lipschitz", "snap_error", "tent_lipschitz", "ramps_are_snapped_tents", "approx_shape", "approx_rows",
+                 "approx_half_step", "approx_half_step_default", "transformer_flat_entry", "fit_transform_eq_transform",
+                 "vectorize_samples_evalPL", "death_vector_sorted"]
+KNOWN_KEY = "repeated-bar-shortcut"
+KNOWN_SITE = "site=persim/landscapes/exact.py:repeated-bar-shortcut"
+KNOWN_CASE = {"op": "vectorize_true", "bars": [[1.0, 5.0], [1.0, 5.0], [3.0, 6.0]], "start": 1.0, "stop": 6.0, "n": 11}
 TOL = 1e-9
 DEFAULT_STEPS = 500
 
@@ -58,11 +76,12 @@ def arr(d):
 
 
 def canon_values(v):
-    """the code's `values`: 'empty' for the placeholder, else a list of rows of floats"""
+    """the code's `values` as a list of rows of floats; a non-numeric array (the string placeholder ['empty'] of the code
+    before /repo fix 357d745) becomes the tag 'str:[...]', which equals no model answer"""
     v = np.asarray(v)
-    if v.dtype.kind in "US":
-        return "empty" if v.tolist() == ["empty"] else "str:%r" % (v.tolist(),)
-    return v.tolist()
+    if v.dtype.kind not in "fiub":
+        return "str:%r" % (v.tolist(),)
+    return v.astype(float).tolist()
 
 
 def code_approx(dgms, hd, start, stop, n, grid_out=None):
@@ -154,9 +173,9 @@ def bound_check(vals, bars, start, stop, n):
     scale = max(1.0, abs(start), abs(stop))
     step, nodes = exact_grid(start, stop, n)
     lam = true_landscape(bars, nodes)
-    rows = [] if vals == "empty" else vals
-    if rows and any(len(r) != n for r in rows):
-        return False, "row length differs from num_steps", False
+    rows = vals
+    if not rows or any(not isinstance(r, list) or len(r) != n for r in rows):
+        return False, "values is not a (>=1) x num_steps array", False
     nodeset = set(nodes)
     on_grid = all(fr(b) in nodeset and fr(d) in nodeset for b, d in bars)
     worst = F(0)
@@ -385,13 +404,15 @@ def check_approx_case(ctx, c, model, corr_failures):
     ctx.case({k: c[k] for k in ("op", "dgms", "hom_deg", "start", "stop", "n")}, nontriv, sample_every=211)
     ctx.count("approx:" + c["kind"])
     ctx.count("approx-result:" + (code if isinstance(code, str) else "rows"))
+    if isinstance(code, list) and bars and len(code) == 1 and not any(code[0]):
+        ctx.count("approx-result:one-zero-row-with-%s" % ("bars-shorter-than-a-step" if c["n"] >= 3 else "2-node-grid"))
     prop_ok = True
     if grid is not None and c["n"] >= 2 and grid[0] <= grid[1] and covers(bars, grid[0], grid[1]):
         s, e = grid
-        if isinstance(code, str) and code != "empty":
+        if isinstance(code, str):
             prop_ok = False
             ctx.test("half_step_bound", False)
-            ctx.violation("PersLandscapeApprox returns no values on a covering grid: %s" % code, dict(c, code=code),
+            ctx.violation("PersLandscapeApprox returns no numeric values on a covering grid: %s" % code, dict(c, code=code),
                           found_input=True, law="half_step_bound")
         else:
             ok, detail, on_grid = bound_check(code, bars, s, e, c["n"])
@@ -468,7 +489,11 @@ def stream_transform(ctx, corr_failures):
     cases = []
     for i in range(ctx.n(600, 4000)):
         c = gen_exact(ctx) if i % 2 else gen_generic(ctx)
-        c["dgms"] = [finite_bars(d) for d in c["dgms"]]
+        # infinite bars stay in the diagrams: `fit` must ignore them exactly as the constructor does (/repo fix b209c93)
+        if c["hom_deg"] < len(c["dgms"]) and finite_bars(c["dgms"][c["hom_deg"]]) and r.random() < 0.25:
+            d = c["dgms"][c["hom_deg"]]
+            for _ in range(r.randint(1, 2)):
+                d.insert(r.randint(0, len(d)), [r.choice(finite_bars(d))[0], math.inf])
         if r.random() < 0.05:
             c["hom_deg"] = len(c["dgms"]) + r.randint(0, 1)
         c["op"] = "transform"
@@ -484,10 +509,13 @@ def stream_transform(ctx, corr_failures):
     for c, model in zip(cases, ask(lines)):
         code = code_transform(c["dgms"], c["hom_deg"], c["start"], c["stop"], c["n"], c["flatten"], c["fit"])
         direct = code_approx(c["dgms"], c["hom_deg"], c["start"], c["stop"], c["n"])
-        bars = c["dgms"][c["hom_deg"]] if c["hom_deg"] < len(c["dgms"]) else []
+        full = c["dgms"][c["hom_deg"]] if c["hom_deg"] < len(c["dgms"]) else []
+        bars = finite_bars(full)
         ctx.case({k: c[k] for k in ("op", "dgms", "hom_deg", "start", "stop", "n", "flatten", "fit")},
                  len(bars) >= 2 and isinstance(code, list), sample_every=173)
         ctx.count("transform:%s:%s" % (c["fit"], "flat" if c["flatten"] else "2d"))
+        if len(full) > len(bars):
+            ctx.count("transform:with-infinite-bars:" + c["fit"])
         # the property, code against code: exactly the values of the approximate landscape, row-major
         want = direct
         if isinstance(direct, list) and c["flatten"]:
@@ -596,6 +624,126 @@ def stream_vectorize(ctx, corr_failures):
             corr_failures.append((c, code, model, ok))
 
 
+def code_vectorize_true(bars, start, stop, n):
+    """vectorize(PersLandscapeExact(dgms=[bars])) -> (values | 'err:Kind', shortcut firings, (start, stop) used)"""
+    mod = common.pm("landscapes.exact")
+    vec = common.pm("landscapes.tools").vectorize
+    trace = mod._VERIF_TRACE
+    if trace is None:
+        raise common.HarnessError("persim.landscapes.exact._VERIF_TRACE is None: the PERSIM_VERIF hook is off")
+    del trace[:]
+    kw = {} if n == DEFAULT_STEPS else {"num_steps": n}
+    with np.errstate(all="ignore"):
+        st, v, _ = _quiet(lambda: vec(mod.PersLandscapeExact(dgms=[arr(bars)], hom_deg=0), start=start, stop=stop, **kw))
+    fired = sum(1 for x in trace if x[0] == "repeated-bar-shortcut")
+    del trace[:]
+    if st == "err":
+        return "err:" + v, fired, None
+    return canon_values(v.values), fired, (float(v.start), float(v.stop))
+
+
+def vectorize_true_check(code, bars, grid, n):
+    """`vectorize(P, ...).values` against the TRUE landscape of the diagram at the nodes of the code's own grid
+    (rows beyond those returned count as zero).  -> (ok, detail)"""
+    s, e = grid
+    scale = max([1.0, abs(s), abs(e)] + [abs(x) for b in bars for x in b])
+    if not isinstance(code, list) or any(not isinstance(r, list) or len(r) != n for r in code):
+        return False, {"why": "values is not a depth x num_steps array", "code": _short(code)}
+    nodes = [fr(t) for t in np.linspace(s, e, n)]
+    lam = true_landscape(bars, nodes)
+    worst, where = F(0), None
+    for k in range(max(len(code), len(lam))):
+        for i in range(n):
+            v = fr(code[k][i]) if k < len(code) else F(0)
+            t = lam[k][i] if k < len(lam) else F(0)
+            if not math.isfinite(float(v)):
+                return False, {"why": "non-finite value", "where": (k, i)}
+            if abs(v - t) > worst:
+                worst, where = abs(v - t), (k, i, float(v), float(t))
+    return float(worst) <= TOL * scale, {"worst": float(worst), "where(depth,node,code,true)": where}
+
+
+def known_text(kf):
+    return (KNOWN_SITE + " still fails: vectorize(PersLandscapeExact([(1,5),(1,5),(3,6)]),1,6,11).values[1][7] = 1.5, "
+            "true value 0.5 (the C03 repeated-bar shortcut, seen through C08); listed in known_findings.txt"
+            + ("" if kf else " [NOT LISTED]"))
+
+
+def known_listed():
+    return [t for k, t in common.known_findings("C08") if k == "known" and KNOWN_SITE in t]
+
+
+def known_replay(ctx):
+    """replay the listed finding on the real code; while it still fails print the KNOWN-FINDING line"""
+    kf = known_listed()
+    c = KNOWN_CASE
+    code, fired, grid = code_vectorize_true(c["bars"], c["start"], c["stop"], c["n"])
+    ok, detail = (False, {"why": code}) if grid is None else vectorize_true_check(code, c["bars"], grid, c["n"])
+    ctx.extra["known_finding_still_fails"] = not ok
+    ctx.extra["known_finding_shortcut_fired"] = fired
+    if not ok and fired:
+        if not kf:
+            ctx.violation("vectorize is wrong where the repeated-bar shortcut fires and this is not listed in known_findings.txt",
+                          dict(c, code=code, detail=detail), found_input=True, law="vectorize_true_landscape")
+        else:
+            ctx.known(KNOWN_KEY, known_text(kf))
+    elif not ok:
+        ctx.violation("vectorize(PersLandscapeExact([(1,5),(1,5),(3,6)]),1,6,11) is wrong and the shortcut trace did not fire: %r"
+                      % (detail,), dict(c, code=code, detail=detail), found_input=True, law="vectorize_true_landscape")
+    else:
+        print("note: the listed known finding of C08 no longer reproduces on this tree", flush=True)
+    return kf
+
+
+def stream_vectorize_true(ctx):
+    """[T] vectorize of the exact landscape OF A DIAGRAM against the true landscape lambda_k at the grid nodes.  The theorem
+    `vectorize_samples_evalPL` is about the landscape's own critical pairs; "true values" needs C03 on top.  A failure with
+    the C03 shortcut fired is the known finding (counted); any other failure is a violation."""
+    r = ctx.rng
+    kf = known_replay(ctx)
+    attributed = fired_cases = 0
+    for i in range(ctx.n(500, 4000)):
+        mode = ctx.gen.mode()
+        nmax = ctx.n(8, 20) if r.random() < 0.8 else 3
+        bars = [b for b in ctx.gen.diagram(nmax, mode=mode, allow_diag=False, allow_empty=False, dup=0.25) if b[1] > b[0]]
+        if not bars:
+            continue
+        lo, hi = min(b[0] for b in bars), max(b[1] for b in bars)
+        span = hi - lo
+        kind = r.choice(["default", "default", "cover", "over", "partial"])
+        n = r.choice([2, 3, 5, 8, 9, 11, 17, 33, 40] + ([129, 300] if ctx.thorough else []))
+        if kind == "default":
+            s = e = None
+        elif kind == "cover":
+            s, e = lo, hi
+        elif kind == "over":
+            s, e = lo - span * r.choice([0.25, 1.0]), hi + span * r.choice([0.5, 2.0])
+        else:
+            s, e = lo + span * 0.25, hi - span * 0.125
+        c = {"op": "vectorize_true", "bars": bars, "start": s, "stop": e, "n": n}
+        code, fired, grid = code_vectorize_true(bars, s, e, n)
+        ctx.case(c, len(bars) >= 2 and isinstance(code, list), sample_every=97)
+        ctx.count("vectorize_true:%s:%s" % (kind, "shortcut-fired" if fired else "no-shortcut"))
+        fired_cases += 1 if fired else 0
+        if grid is None:
+            ok, detail = False, {"why": "vectorize raised %s on the landscape of a diagram" % code}
+        else:
+            ok, detail = vectorize_true_check(code, bars, grid, n)
+        if not ok and fired and kf:
+            attributed += 1          # the known finding: counted, not reported
+            ctx.known(KNOWN_KEY, known_text(kf))
+            continue
+        ctx.test("vectorize_true_landscape", ok)
+        if not ok:
+            ctx.violation("vectorize(PersLandscapeExact(diagram)) differs from the true landscape at the grid nodes "
+                          "(repeated-bar shortcut fired: %d): %r" % (fired, detail), dict(c, code=code, fired=fired, detail=detail),
+                          found_input=True, law="vectorize_true_landscape")
+            if len(ctx.violations) > 5:
+                break
+    ctx.extra["vectorize_true_shortcut_fired_cases"] = fired_cases
+    ctx.extra["vectorize_true_attributed_to_known_finding"] = attributed
+
+
 def stream_death(ctx, corr_failures):
     r = ctx.rng
     cases = []
@@ -629,16 +777,18 @@ def run(ctx):
     corr_failures = []
     cov = common.LineCov(["persim/landscapes/approximate.py", "persim/landscapes/auxiliary.py", "persim/landscapes/tools.py",
                           "persim/landscapes/transformer.py"])
+    corethm.record(ctx, CORE_THEOREMS, ["PersimVerif/Props/C08.lean"])
     for stream in (stream_approx, stream_transform, stream_vectorize, stream_death):
         stream(ctx, corr_failures)
         if len(ctx.violations) > 5:
             break
+    if len(ctx.violations) <= 5:
+        stream_vectorize_true(ctx)
     # line coverage of the anchored functions on a small slice (tracing is slow)
     with cov:
         for c in [gen_generic(ctx) for _ in range(10)] + [gen_exact(ctx) for _ in range(10)] + [gen_malformed(ctx) for _ in range(14)]:
             code_approx(c["dgms"], c["hom_deg"], c["start"], c["stop"], c["n"])
-            fin = [finite_bars(d) for d in c["dgms"]]
-            code_transform(fin, c["hom_deg"], c["start"], c["stop"], c["n"], True, "fit_transform")
+            code_transform(c["dgms"], c["hom_deg"], c["start"], c["stop"], c["n"], True, "fit_transform")
             code_death(c["dgms"], 0)
         code_vectorize([[[0.0, 0.0], [1.5, 1.5], [3.0, 0.0]]], None, None, 7)
     ctx.extra["anchored_line_coverage"] = {
@@ -683,7 +833,7 @@ def replay(ctx, rep):
             return False
         bars = finite_bars(c["dgms"][c["hom_deg"]])
         if c["n"] >= 2 and g[0] <= g[1] and covers(bars, g[0], g[1]):
-            if isinstance(code, str) and code != "empty":
+            if isinstance(code, str):
                 return False
             ok, detail, _ = bound_check(code, bars, g[0], g[1], c["n"])
             print("bound:", detail)
@@ -707,6 +857,14 @@ def replay(ctx, rep):
         gv = np.linspace(s, e, c["n"])
         return all(abs(float(fr(code[k][i]) - eval_pl([(fr(x), fr(y)) for x, y in d], fr(t)))) <= TOL * scale
                    for k, d in enumerate(c["cps"]) for i, t in enumerate(gv))
+    if op == "vectorize_true":
+        code, fired, grid = code_vectorize_true(c["bars"], c["start"], c["stop"], c["n"])
+        print("code:", _short(code, 2000), "shortcut fired:", fired, "grid:", grid)
+        if grid is None:
+            return False
+        ok, detail = vectorize_true_check(code, c["bars"], grid, c["n"])
+        print("against the true landscape:", detail)
+        return ok
     if op == "death":
         code = code_death(c["dgms"], c["hom_deg"])
         print("code:", code)
@@ -718,16 +876,26 @@ def replay(ctx, rep):
 
 
 MANIFEST = {
-    "text": "Proof: 19 Lean theorems about the model of PersLandscapeApprox / ndsnap_regular / vectorize / PersistenceLandscaper / "
-            "death_vector over every linear ordered field: the k-th largest value is 1-Lipschitz in the sup norm, the nearest grid "
-            "node is within step/2 (an on-grid point is fixed), the two ramp loops write exactly the positive tent values of the "
-            "snapped bars, hence for every diagram, every num_steps >= 2 and every covering grid each sampled value is within "
-            "step/2 of the true landscape (rows beyond those returned counting as zero; exact when all endpoints are nodes); "
-            "transformer = approx values (flattened row-major), vectorize = evalPL at the nodes given the np.interp contract, "
-            "death vector sorted and a permutation.  The model is tied to the code on every run by executing it at Rat against "
-            "the real classes (exactly on dyadic grids, 1e-9 otherwise) and the bound is also evaluated on the real code.",
-    "note": "Trusted: Lean kernel + Mathlib (axioms propext/Classical.choice/Quot.sound); the correspondence harness; np.linspace, "
-            "np.argmin (first minimum), dict overwrite order, sorted, np.interp and sklearn's fit_transform as modelled contracts. "
-            "Theorems are exact-arithmetic; float rounding (tie flips at midpoints) is covered only by the [T] bound stream.",
+    "text": "Proof: 21 Lean theorems, of which 12 core (carrying a clause of the property; the rest are helpers, error paths, concrete "
+            "instances, the tightness witness, the regression witness `old_fit_inf_counterexample` and `transformer_is_approx`, which "
+            "only restates the definition of the model of `transform` and is tied to the real transformer by the correspondence) "
+            "about the model of PersLandscapeApprox / ndsnap_regular / vectorize / PersistenceLandscaper / death_vector over every "
+            "linear ordered field: the k-th largest value is 1-Lipschitz in the sup norm, the nearest grid node is within step/2 "
+            "(an on-grid point is fixed), the two ramp loops write exactly the positive tent values of the snapped bars, hence for "
+            "every diagram, every num_steps >= 2 and every covering grid each sampled value is within step/2 of the true landscape "
+            "(rows beyond those returned counting as zero; at least one row is always returned, exactly one zero row when no bar is "
+            "visible on the grid; exact when all endpoints are nodes); fit_transform = transform on diagrams with or without infinite "
+            "bars, flattening is row-major; death vector sorted and a permutation.  `vectorize_samples_evalPL` says that vectorize "
+            "samples the landscape's OWN critical pairs (given the np.interp contract); that these samples are the TRUE landscape "
+            "values transfers through C03 (critical pairs = landscape) and is tested here directly on the real code against the exact "
+            "landscape at the grid nodes - it fails where the C03 repeated-bar shortcut fires, which is replayed on every run and "
+            "reported as KNOWN-FINDING; a wrong value without the shortcut trace is a VIOLATION.  The model is tied to the code on "
+            "every run by executing it at Rat against the real classes (exactly on dyadic grids, 1e-9 otherwise) and the bound is "
+            "also evaluated on the real code.",
+    "note": "Trusted: Lean kernel + Mathlib (axioms propext/Classical.choice/Quot.sound); the correspondence harness and the compiled "
+            "driver executable (compiled by Lean's compiler, not checked by the kernel); np.linspace, np.argmin (first minimum), dict "
+            "overwrite order, sorted, np.interp and sklearn's fit_transform as modelled contracts. "
+            "Theorems are exact-arithmetic; float rounding (tie flips at midpoints) is covered only by the [T] bound stream. "
+            "[T] only: vectorize against the true landscape (known finding where the C03 shortcut fires).",
     "technique": "Lean 4 theorems over a hand-written model + differential correspondence with the real code",
 }
